@@ -22,6 +22,17 @@ or in the specification; values of every YAML-able type incl. None / 0 / False /
 depths (prefix conflicts) between components, managers and user layers; earlier simulations in the same process with
 the same names / classes / keys and different values. The oracle derives every expectation from the case (the
 configuration) and from constants taken from the property's anchors, never from values read back.
+
+Faults and re-entrancy (lesson 16): in about a third of the cases the history contains `add_components` calls that the
+code refuses (duplicate names at any depth, defaults clashing with a registered component / a manager, defaults that
+change the structure of the configuration - also below / above a key the USER supplied -, a `sub_components` or
+`configuration_defaults` property that raises); the harness catches the error where a caller could and carries on with
+the SAME context: it reads every touched key after every call, adds the corrected batch (new objects, or the same
+objects for the members that were all right), repeats the refused batch verbatim, adds unrelated batches, runs the
+remaining ordinary stages and `setup()`; sometimes the `setup` of one component / of the optional manager raises, is
+caught, and the context is used further (reads, writes, add_components, a second setup()). The model says what each
+refused call leaves behind (driver ops `addk`, `setupk`); the oracle states what the property says about such a
+history and no more (see `_oracle_faults`).
 """
 from __future__ import annotations
 
@@ -182,6 +193,8 @@ def classify(e) -> str:
     from vivarium.framework.components.manager import ComponentConfigError
     from vivarium.framework.lifecycle import ConstraintError, InvalidTransitionError
     ctx = e.__context__
+    if type(e).__name__ == "ProbeBoom":
+        return "usererror"             # raised on purpose by a probe's sub_components / configuration_defaults / setup
     if isinstance(e, ComponentConfigError) or type(e) is ValueError:
         if isinstance(ctx, DuplicatedConfigurationError):
             return "dupvalue"          # apply_configuration_defaults: raised while handling the duplicate
@@ -390,16 +403,19 @@ class Run:
         self.cp, self.case = cp, case
         flat_nodes = preorder(case["forest"])
         deleter = flat_nodes[-1]["n"] if (case.get("delete") and flat_nodes and not flat_nodes[-1].get("lib")) else None
-        self.st = cp.reset(specs=_specs(case["forest"]), probes=case["probes"], attempts=case["attempts"], read=_read, write=_write,
-                           delete_fn=_delete, delete=case.get("delete"), deleter=deleter, opt_manager=case["plugins"].get("opt") or {})
+        self.st = cp.reset(specs=_specs(case["forest"] + [t for ev in case.get("faults") or [] for t in ev["forest"]]),
+                           probes=case["probes"], attempts=case["attempts"], read=_read, write=_write,
+                           delete_fn=_delete, delete=case.get("delete"), deleter=deleter, opt_manager=case["plugins"].get("opt") or {},
+                           setup_boom=case.get("setup_boom"))
         self.prev = reuse
         self.reuse_what = reuse_what or ""
         if reuse is not None and "objects" in self.reuse_what:
             self.st["memo"] = reuse.st["memo"]            # the SAME component objects as the earlier simulation
         self.obs = {"stages": [], "pre": [], "setup": None, "values": None, "post": [], "late_add": None, "setup_twice": None,
-                    "mutated": []}
+                    "mutated": [], "faults": []}
         self.sim = None
         self.stage_args = []
+        self.fault_args = {}
         self.ok = True
 
     # ---- constructor
@@ -486,7 +502,9 @@ class Run:
         cp.use(self.st)
         forest = case["forest"]
         pos = case["n_spec"] + case["batches"][0]
-        for k, how in zip(case["batches"][1:], case["adds"]):
+        for stage, (k, how) in enumerate(zip(case["batches"][1:], case["adds"]), start=1):
+            self.fault_events(stage)
+            cp.use(self.st)
             objs = [cp.build(t) for t in forest[pos:pos + k]]
             pos += k
             if how.get("group") and len(objs) >= 2:          # nested list / tuple inside the supplied sequence
@@ -508,8 +526,32 @@ class Run:
             if out != "ok":
                 self.ok = False
                 return False
+        self.fault_events(len(case["batches"]))
         self.obs["mgrs_live"] = [m.name for m in sim._component_manager._managers]
         return True
+
+    # ---- batches the caller expects to be refused (lesson 16): the error is caught where a caller could catch it and the
+    # SAME context is used further; after each one every probed key is read
+    def fault_events(self, at):
+        cp, case, sim = self.cp, self.case, self.sim
+        for k, ev in enumerate(case.get("faults") or []):
+            if ev["at"] != at:
+                continue
+            cp.use(self.st)
+            j = ev.get("same_as")
+            if j is not None and j in self.fault_args:
+                arg = self.fault_args[j]                      # an exact repeat: the very same sequence object again
+            else:
+                objs = [cp.build(t) for t in ev["forest"]]    # (the same node id gives the same object as before)
+                arg = tuple(objs) if ev.get("container") == "tuple" else objs
+            self.fault_args[k] = arg
+            try:
+                sim.add_components(arg)
+                out = "ok"
+            except Exception as e:  # noqa: BLE001
+                out = classify(e)
+            self.obs["faults"].append({"k": k, "outcome": out, "registered": [c.name for c in sim._component_manager._components],
+                                       "values": [[p, _read(sim.configuration, p)] for p in case["probes"]]})
 
     # ---- reads and writes before setup (any layer, with source strings, exact repeats)
     def pre(self):
@@ -546,13 +588,14 @@ class Run:
                              "seen": [[n, s] for _, n, s, _ in LOG], "tried": [t for _, _, _, ts in LOG for t in ts],
                              "deleted": deleted[0] if deleted else None}
         self.ok = out == "ok"
+        self.caught = out == "usererror" and bool(case.get("setup_boom"))   # the caller catches it and carries on
         return self.ok
 
     # ---- afterwards
     def post(self):
         cp, case, sim, obs = self.cp, self.case, self.sim, self.obs
         self.check_mutation()
-        if not self.ok:
+        if not self.ok and not getattr(self, "caught", False):
             return
         LOG = self.st["log"]
         probes = case["probes"]
@@ -610,6 +653,18 @@ def _run_single(case, prev=None, reuse_what=None):
     r = Run(case, reuse=prev, reuse_what=reuse_what)
     if not other_case:
         r.ctor(); r.adds(); r.pre(); r.setup(); r.post()     # noqa: E702
+        refused = [o["k"] for o in r.obs["faults"] if o["outcome"] != "ok"]
+        if refused:
+            # the history in which the refused calls never happened (new objects, same everything else), for the
+            # metamorphic clause of the oracle: what the refused calls could not legitimately write reads the same
+            clean = dict(case, faults=[dict(ev, same_as=None) for k, ev in enumerate(case["faults"]) if k not in refused], other=None)
+            try:
+                c = Run(clean)
+                c.ctor(); c.adds(); c.pre(); c.setup(); c.post()     # noqa: E702
+                r.obs["clean"] = {"stages": [s_["outcome"] for s_ in c.obs["stages"]], "setup": c.obs["setup"] and c.obs["setup"]["outcome"],
+                                  "log": c.obs["setup"] and [n for _, n in c.obs["setup"]["log"]], "values": c.obs["values"]}
+            except Exception as e:  # noqa: BLE001
+                r.obs["clean"] = {"crash": type(e).__name__}
         return r
     o = Run(fill(other_case))
     steps = {0: [], 1: [], 2: [], 3: [], 4: []}
@@ -666,6 +721,23 @@ def _enc_forest(forest):
     return f"{len(forest)} {','.join(nodes) if nodes else '-'}"
 
 
+def F_MGR_NAMES(case):
+    """names of the managers of THIS simulation (from the case and the property's anchors)"""
+    return expected_managers(case)
+
+
+def _fault_token(ev):
+    """which of the user's properties raises while the batch is registered: - | sub | defs:<index in flattening order>
+    (node field "boom"; `_flatten` reads every sub_components before the first component is registered)"""
+    flat = preorder(ev["forest"])
+    if any(t.get("boom") == "sub" for t in flat):
+        return "sub"
+    for i, t in enumerate(flat):
+        if t.get("boom") == "defs":
+            return f"defs:{i}"
+    return "-"
+
+
 def has_gen(forest):
     return any(t.get("sub") == "gen" for t in preorder(forest))
 
@@ -684,6 +756,8 @@ def fill(case):
     c.setdefault("before", [])
     c.setdefault("reuse", None)
     c.setdefault("other", None)
+    c.setdefault("setup_boom", None)
+    c["faults"] = [dict(ev, at=max(1, min(len(c["batches"]), ev["at"]))) for ev in c.get("faults") or []]
     c["pre"] = [op if op[0] in ("w", "r") and len(op) in (1, 5) else ["w", op[0], op[1], None, None] for op in c["pre"]]
     return c
 
@@ -698,7 +772,7 @@ class C20(Prop):
                  "configuration.py, components/manager.py and engine.py) + exact correspondence on real SimulationContexts")
     trusted_extra = ["layered_config_tree (third party) is modelled as layered lookup over (layer, leaf path) entries: one value per "
                      "layer and path, outermost layer wins, one tree shape for all layers, freeze() makes every write raise, deletion "
-                     "ignores freeze() (F18)"]
+                     "ignores freeze() (F18); update(dict) applies the dictionary key by key and keeps what was written before a refusal"]
     partial = ("frozen_after_setup_partial covers writes (update / assignment); deletion after freeze() is the recorded finding F18 "
                "(config-delete-after-freeze), reproduced by the model and replayed on every run")
     n_quick = 1100
@@ -708,7 +782,10 @@ class C20(Prop):
             "components supplied through every route (specification block / components= dict / list / add_components batches), "
             "every sub_components container, both ways of declaring defaults; configuration through every route (dict / "
             "LayeredConfigTree / YAML file / ~/vivarium.yaml in a temp HOME / override argument / plugin configuration) with values "
-            "of every YAML-able type over shared key paths; one injected fault in about half of the cases; distinct by case hash; "
+            "of every YAML-able type over shared key paths; one injected fault in about half of the cases; about a third of the "
+            "cases are fault histories (1-5 add_components calls that are refused - duplicate name, clashing default, structure, "
+            "a raising property -, caught, followed by reads, corrected batches, exact repeats, the remaining stages and setup; "
+            "sometimes a setup() that raises and is caught); distinct by case hash; "
             "non-trivial = accepted with nesting and a user value over a default, or rejected because of a clash below the top level")
 
     # ------------------------------------------------------------------ generation
@@ -735,6 +812,201 @@ class C20(Prop):
 
     def generate(self, rng: random.Random, i: int, tier: str):
         case = self._gen(rng, allow_before=True)
+        # lesson 16: about a third of the cases become FAULT HISTORIES. The decision and everything about the faults is drawn
+        # from a generator of its own (seeded by the case), so the main stream - and with it every other case - is unchanged.
+        frng = random.Random("faults:" + hashlib.sha1(repr(case).encode()).hexdigest())
+        F = self._facts(case)
+        valid = not F["must_reject"] and not F["conflict_user"]
+        if not valid:                                            # a base case that is refused itself: only when its constructor is
+            c0 = fill(case)                                      # not, so that the caught calls before the refused stage happen
+            sub = dict(c0, forest=ctor_forest(c0), batches=[c0["batches"][0]], adds=[])
+            F0 = self._facts(sub)
+            ctor_ok = not F0["must_reject"] and not F0["may_reject"] and len(c0["batches"]) > 1
+        if frng.random() < (0.45 if valid else 0.3 if ctor_ok else 0.0):
+            case = self._add_faults(frng, case)
+        return case
+
+    FAULT_KINDS = ["dupname-registered", "dupname-registered", "dupname-internal", "dupvalue-component", "dupvalue-component",
+                   "dupvalue-manager", "dupvalue-user-key-first", "structure-deeper", "structure-shallower", "structure-user-key",
+                   "boom-sub", "boom-defs", "valid", "manager-name"]
+
+    def _add_faults(self, rng, case):
+        """turn a generated case into a fault history: 1-3 add_components calls that the code must / may refuse, inserted
+        between the ordinary stages, the harness catching the error and carrying on; follow-ups: the corrected batch (new
+        objects, or the same objects for the members that were all right), the refused batch once more verbatim (the same
+        list object), an unrelated valid batch; sometimes a component whose setup() raises. The user supplies values for
+        keys that only the refused components default (so that what a refusal leaves behind - or takes back - sits under a
+        user value), and every key any of them touches is read after every call, during setup and afterwards."""
+        case = fill(copy.deepcopy(case))
+        # what does not combine with a fault history (kept simple on purpose; the ordinary cases cover it)
+        case["other"], case["reuse"], case["delete"], case["ctor_holes"] = None, None, None, []
+        for a in case["adds"]:
+            a["holes"] = []
+        for t in preorder(case["forest"]):
+            if not t.get("lib"):
+                t["holes"] = []
+                if t.get("sub") == "gen":
+                    t["sub"] = "list"
+        ids, names = [1000], [f"r{k}" for k in range(40)]
+        if len(case["batches"]) <= 2 and rng.random() < 0.35:   # one more ordinary batch at the end: calls are refused BETWEEN batches,
+            for _ in range(rng.choice([1, 1, 2])):              # and a valid batch that comes after them must still be accepted
+                case["forest"].append({"id": 900 + len(case["forest"]), "n": names.pop(), "d": [], "c": [], "sub": "list", "defs": "property",
+                                       "proto": "plain", "holes": []})
+                case["batches"].append(1)
+                case["adds"].append({"container": rng.choice(["list", "tuple"]), "group": False, "holes": []})
+        m = len(case["batches"])
+        cuts = [case["n_spec"] + case["batches"][0]] + case["batches"][1:]
+        opt = case["plugins"].get("opt") or {"n": None, "d": []}
+        # keys only the refused components will default, some of them supplied by the user (override argument / model specification)
+        fresh = [f"fz{a}.k{b}" for a in range(3) for b in range(3)] + ["fz3.d.k0", "fz3.d.k1", "fz4"]
+        rng.shuffle(fresh)
+        user_new = []
+        for q in fresh[:rng.choice([1, 2, 2, 3])]:
+            tgt = rng.choice(["ov", "ov", "ms"])
+            v = self._value(rng, 0.25, 0.15, 500, 599)
+            case[tgt].append([q, v])
+            user_new.append(q)
+        case["ov"], case["ms"] = canon_pairs(case["ov"]), canon_pairs(case["ms"])
+        if case["ov"] and case["ov_kind"] is None:
+            case["ov_kind"] = rng.choice(["dict", "lct"])
+        if case["ms"] and case["ms_kind"] is None:
+            case["ms_kind"] = rng.choice(["dict", "lct", "yaml_str"])
+        main_paths = [q for t in preorder(case["forest"]) for q, _ in t["d"]] + [q for q, _ in opt["d"]] + list(MGR_PATHS)
+        user_only = user_new + [q for q, _ in case["ov"] + case["ms"] if q not in user_new and not self._touch(q, main_paths)
+                                and not any(under(sec, q) for sec in ("population", "randomness", "time", "interpolation", "stratification", "input_data"))]
+        spare = fresh[3:]
+
+        def node(d=(), c=(), name=None, **kw):
+            ids[0] += 1
+            return dict({"id": ids[0] - 1, "n": name or names.pop(0), "d": [list(x) for x in d], "c": list(c),
+                         "sub": rng.choice(["list", "tuple", "copy"]), "defs": rng.choice(["property", "property", "property_same", "class_attr"]),
+                         "proto": "plain", "holes": []}, **kw)
+
+        def good(k):
+            """k keys a refused component can really write: the user's own keys first of all, fresh ones"""
+            out = []
+            for _ in range(k):
+                pool_ = (user_only * 2 + spare) if rng.random() < 0.8 else spare
+                q = rng.choice(pool_) if pool_ else None
+                if q is not None and all(q != x and not strict_conflict(q, x) for x, _ in out):
+                    out.append([q, rng.randint(600, 699)])
+            return out
+        faults = []
+        n_ev = rng.choice([1, 1, 2, 2, 3])
+        for _ in range(n_ev):
+            at = rng.randint(1, m)
+            reg = preorder(case["forest"][:sum(cuts[:at])])           # main components registered before the event (if all goes well)
+            reg_names = [t["n"] for t in reg]
+            reg_paths = [q for t in reg for q, _ in t["d"]]
+            kind = rng.choice(self.FAULT_KINDS)
+            lead = [node(good(rng.choice([0, 1, 1, 2]))) for _ in range(rng.choice([0, 0, 1, 2]))]
+            tail = [node(good(rng.choice([0, 1]))) for _ in range(rng.choice([0, 0, 1]))]
+            d = good(rng.choice([0, 1, 2, 2]))
+            more = good(rng.choice([0, 0, 1]))
+            off, clash = None, None
+            if kind == "dupname-registered" and reg_names:
+                off = node(d + more, name=rng.choice(reg_names))
+            elif kind == "dupname-internal":
+                lead = lead or [node(good(1))]
+                off = node(d + more, name=rng.choice(lead)["n"])
+            elif kind == "dupvalue-component" and reg_paths:
+                clash = rng.choice(reg_paths)
+                off = node(d + [[clash, rng.randint(700, 799)]] + more)
+            elif kind == "dupvalue-manager":
+                clash = rng.choice(list(MGR_PATHS) + [x for x, _ in opt["d"]])
+                off = node(d + [[clash, rng.randint(1, 9)]] + more)
+            elif kind == "dupvalue-user-key-first" and user_only:
+                clash = rng.choice(reg_paths + list(MGR_PATHS))
+                first = [[rng.choice(user_only), rng.randint(600, 699)]]
+                off = node(first + [x for x in d if x[0] != first[0][0] and not strict_conflict(x[0], first[0][0])] + [[clash, rng.randint(700, 799)]])
+            elif kind == "structure-deeper" and reg_paths:
+                clash = rng.choice(reg_paths) + ".deep"
+                off = node(d + [[clash, 1]] + more)
+            elif kind == "structure-shallower":
+                clash = rng.choice([x for x in reg_paths + list(MGR_PATHS) if "." in x]).rsplit(".", 1)[0]
+                off = node(d + [[clash, 1]] + more)
+            elif kind == "structure-user-key" and user_only:
+                q = rng.choice(user_only)                             # a default BELOW / ABOVE a key the user supplied
+                clash = q + ".deep" if (rng.random() < 0.6 or "." not in q) else q.rsplit(".", 1)[0]
+                off = node([x for x in d if not strict_conflict(x[0], clash) and x[0] != clash] + [[clash, 1]]
+                           + [x for x in more if not strict_conflict(x[0], clash) and x[0] != clash])
+            elif kind == "boom-sub":
+                off = node(d, boom="sub")
+            elif kind == "boom-defs":
+                off = node(d, boom="defs", defs="property")
+            elif kind == "manager-name":
+                off = node(d, name=rng.choice(F_MGR_NAMES(case)))
+            if off is None:
+                kind = "valid"
+                off = node(d)
+            keep = []
+            for x in off["d"]:                                        # one nested dictionary: no key twice, none below another one
+                if all(x[0] != y[0] and not strict_conflict(x[0], y[0]) for y in keep):
+                    keep.append(x)
+            off["d"] = canon_pairs(keep)
+            trees = lead + [off] + tail
+            if rng.random() < 0.35 and lead:                          # the offending component deep in a tree
+                host = rng.choice(lead)
+                host["c"].append(off)
+                trees = lead + tail
+                if rng.random() < 0.4 and tail:
+                    off["c"].append(tail[0])
+                    trees = lead
+            ev = {"at": at, "forest": trees, "container": rng.choice(["list", "list", "tuple"]), "kind": kind}
+            faults.append(ev)
+            r = rng.random()
+            if r < 0.3:                                               # the corrected batch
+                fixed = copy.deepcopy(trees)
+                same_objects = rng.random() < 0.5                     # the members that were all right: the same objects / new ones
+                off_pos = [t["id"] for t in preorder(trees)].index(off["id"])
+                for t in preorder(fixed):
+                    if t["id"] == off["id"]:
+                        t.pop("boom", None)
+                        ids[0] += 1
+                        t["id"] = ids[0] - 1
+                        if kind.startswith("dupname") or kind == "manager-name":
+                            t["n"] = names.pop(0)
+                        t["d"] = [x for x in t["d"] if x[0] != clash]
+                    elif not same_objects or any(x["id"] == off["id"] for x in preorder(t["c"])):
+                        ids[0] += 1                                   # (an object whose sub-components changed is a new object)
+                        t["id"] = ids[0] - 1
+                if rng.random() < 0.5:                                # only what the refused call did not register
+                    n_before = 0
+                    rest = []
+                    for t in fixed:
+                        k_ = len(preorder([t]))
+                        if n_before + k_ > off_pos:
+                            rest.append(t)
+                        n_before += k_
+                    fixed = rest or fixed
+                faults.append({"at": rng.randint(at, m), "forest": fixed, "container": "list", "kind": "corrected"})
+            elif r < 0.45:                                            # the refused batch once more, verbatim
+                faults.append({"at": rng.randint(at, m), "forest": trees, "container": ev["container"], "kind": "verbatim", "same_as": len(faults) - 1})
+            elif r < 0.6:                                             # something unrelated and valid in between
+                faults.append({"at": rng.randint(at, m), "forest": [node([[spare.pop(), rng.randint(600, 699)]] if spare and rng.random() < 0.6 else [])],
+                               "container": "list", "kind": "valid"})
+        faults.sort(key=lambda e: e["at"])                            # (stable) events of one slot keep their order
+        for k, e in enumerate(faults):                                # same_as refers to positions: recompute after sorting
+            if e.get("same_as") is not None:
+                j = next((j for j, e2 in enumerate(faults[:k]) if e2["forest"] is e["forest"] and e2.get("same_as") is None), None)
+                e["same_as"] = j
+        case["faults"] = faults
+        if rng.random() < 0.15:                                       # a component / the optional manager whose setup raises
+            cands = [t["n"] for t in preorder(case["forest"]) if not t.get("lib")] + ([opt["n"]] if opt["n"] else []) \
+                + [t["n"] for e in faults if e["kind"] in ("valid", "corrected") for t in preorder(e["forest"])]
+            if cands:
+                case["setup_boom"] = rng.choice(cands)
+        # read every key any call of the history touches (never an interior key), the user's keys first
+        touched = user_new + [q for e in faults for t in preorder(e["forest"]) for q, _ in t["d"]]
+        every = [q for e in faults for t in preorder(e["forest"]) for q, _ in t["d"]] + [q for t in preorder(case["forest"]) for q, _ in t["d"]] \
+            + [q for q, _ in case["ov"] + case["ms"] + (case["home"] or [])] + list(MGR_PATHS) + [a[1] for a in case["attempts"]] \
+            + [op[1] for op in case["pre"] if op[0] == "w"] + [x[0] for x in case["post"]] + [x for x, _ in opt["d"]]
+        probes = []
+        for q in touched + case["probes"]:
+            if q not in probes and not any(strict_conflict(q, x) and under(q, x) for x in every):
+                probes.append(q)
+        case["probes"] = probes[:20]
+        case["mode"] = (case["mode"] + "+" if case.get("mode") else "") + "fault-history"
         return case
 
     _proto_rate = 0.3
@@ -1264,6 +1536,50 @@ class C20(Prop):
             case([N(0, "a", [("s0.k0", 1), ("s0.k1", 1.0), ("s0.k2", "1")], defs="property_same"), N(1, "b", [("s1.k0", True)], defs="property_same")],
                  ms=[("s0.k0", 1.0), ("s0.k1", True), ("s1.k0", 1)], ov=[("s0.k0", "1"), ("s0.k2", [1])], home=[("s0.k0", [1]), ("s1.k0", "True")]),
         ]
+        # lesson 16 - fault histories: add_components calls that are refused, the error caught, the same context used further
+        # (reads of every touched key after each call, corrected batch, exact repeat, setup); a setup() that raises
+        def FH(forest, faults, **kw):
+            evs = [dict({"container": "list", "kind": "boundary"}, **e) for e in faults]
+            paths = [p_ for e in evs for x in preorder(e["forest"]) for p_, _ in x["d"]] + [p_ for x in preorder(forest) for p_, _ in x["d"]] \
+                + [p_ for p_, _ in list(kw.get("ov", ())) + list(kw.get("ms", ()))]
+            pr = []
+            for p_ in paths + ["absent.k", "population.population_size"]:
+                if p_ not in pr and not any(strict_conflict(p_, q) and under(p_, q) for q in paths + list(MGR_PATHS)):
+                    pr.append(p_)
+            return case(forest, faults=evs, probes=pr, mode="fault-history", **kw)
+        base_ = lambda: N(0, "base", [("base.scale", 1)])   # noqa: E731
+        ext = N(1000, "ext", [("ext.rate", 2), ("ext.cap", 10), ("base.scale", 3)])
+        ext_ok = N(1001, "ext_fixed", [("ext.rate", 2), ("ext.cap", 10)])
+        out += [
+            FH([base_()], [{"at": 1, "forest": [ext]}, {"at": 1, "forest": [ext_ok]}], ov=[("ext.rate", 9)]),
+            FH([base_()], [{"at": 1, "forest": [ext]}], ms=[("ext.rate", 9), ("ext.cap", None)], late=True, twice=True),
+            FH([base_()], [{"at": 1, "forest": [N(1000, "ext", [("ext.rate", 2), ("base.scale.deep", 3), ("ext.cap", 10)])]},
+                           {"at": 1, "forest": [N(1001, "ext", [("ext.cap", 10)])]}], ov=[("ext.rate", 0)], ms=[("ext.rate", 7)]),
+            FH([base_(), N(1, "b", [("s0.k0", 1)])], [{"at": 1, "forest": [N(1000, "p", [("x.a", 1)], [N(1001, "q", [("x.b", 2)], [N(1002, "base", [("y.a", 9)])])])]},
+                                                      {"at": 1, "forest": [N(1003, "q")]}, {"at": 2, "forest": [N(1004, "r", [("y.a", 4)])]}],
+               batches=[1, 1], ov=[("x.a", 50), ("y.a", None)]),
+            FH([base_()], [{"at": 1, "forest": [N(1000, "base", [("base.scale", 1)])]}, {"at": 1, "forest": [N(1001, "base", [("ext.rate", 3)])]},
+                           {"at": 1, "forest": [N(1002, "n", [("ext.rate", 4)])]}], ov=[("ext.rate", 9)]),
+            FH([base_()], [{"at": 1, "forest": [N(1000, "a1", [("x.a", 1)]), N(1001, "a2", [("x.b", 1)]) | {"boom": "sub"}]},
+                           {"at": 1, "forest": [N(1000, "a1", [("x.a", 1)]), N(1002, "a2", [("x.b", 1)])]}], ov=[("x.a", 5)]),
+            FH([base_()], [{"at": 1, "forest": [N(1000, "a1", [("x.a", 1)]), N(1001, "a2", [("x.b", 1)]) | {"boom": "defs"}, N(1003, "a3")]},
+                           {"at": 1, "forest": [N(1002, "a2", [("x.b", 1)]), N(1003, "a3")]}], ms=[("x.b", 5)]),
+            FH([base_()], [{"at": 1, "forest": [ext], "container": "tuple"}, {"at": 1, "forest": [ext], "container": "tuple", "same_as": 0},
+                           {"at": 1, "forest": [ext], "container": "tuple", "same_as": 0}], ov=[("ext.cap", "")]),
+            FH([base_(), N(1, "later", [("ext.cap", 5)])], [{"at": 1, "forest": [ext]}], batches=[1, 1], ov=[("ext.rate", 9)]),   # the leftover collides later
+            FH([base_(), N(1, "later", [("s0.k0", 5)])], [{"at": 1, "forest": [ext]}, {"at": 2, "forest": [N(1001, "u", [("u.k", 1)])]}],
+               batches=[1, 1], ov=[("ext.rate", 9), ("s0.k0", 8)]),
+            FH([base_()], [{"at": 1, "forest": [N(1000, "population_manager", [("x.a", 1)])]}], ov=[("x.a", 5)]),          # accepted by add, refused by setup
+            FH([base_(), N(1, "b", [("s0.k0", 1)])], [{"at": 1, "forest": [ext]}], ov=[("ext.rate", 9)], setup_boom="b", late=True, twice=True),
+            FH([base_(), N(1, "b", [("s0.k0", 1)])], [], ov=[("s0.k0", 9)], setup_boom="base", late=True, twice=True,
+               attempts=[("base", "s0.k0", 5, "update")], post=[("s0.k0", 6, "update")]),
+            FH([base_()], [{"at": 1, "forest": [ext]}], ov=[("ext.rate", 9)], setup_boom="probe_manager", twice=True,
+               plugins=P(opt={"n": "probe_manager", "d": [["pm.k0", 4]]})),
+            FH([base_()], [{"at": 1, "forest": [N(1000, "e", [("u.k", 1), ("population.population_size", 7)])]}], ov=[("u.k", 5)]),
+            FH([base_()], [{"at": 1, "forest": [N(1000, "e", [("u.k", 1), ("base", 7)])]}], ms=[("u.k", 5)], ms_kind="yaml_str"),
+            FH([base_()], [{"at": 1, "forest": [N(1000, "h", [("v.a", 1)], [N(1001, "e", [("u.k.deep", 1)])], sub="tuple")], "container": "tuple"},
+                           {"at": 1, "forest": [N(1002, "e2", [("u", 1)])]}], ov=[("u.k", 5), ("v.a", False)], ov_kind="lct"),
+        ]
         main = case([N(0, "a", [("s0.k0", 1), ("s0.k1", 2)], [N(1, "b", [("s1.k0", 3)], [], defs="class_attr")], defs="class_attr")],
                     ms=[("s1.k0", 30)], probes=["s0.k0", "s0.k1", "s1.k0", "s2.k0", "fresh.k0", "population.population_size"])
         b1 = case([N(0, "a", [("s0.k0", 1), ("s0.k1", 2)], [N(1, "b", [("s1.k0", 3)], [], defs="class_attr")], defs="class_attr"), N(2, "c", [("s2.k0", 4)])],
@@ -1278,6 +1594,45 @@ class C20(Prop):
 
         def rebatch(f):
             return dict(case, forest=f, n_spec=0, spec_via=None, batches=[len(f)], adds=[], ctor_holes=[])
+        faults = case["faults"]
+        if case.get("setup_boom"):
+            yield dict(case, setup_boom=None)
+        for j in range(len(faults)):                            # drop a caught call (positions of exact repeats move along)
+            rest = []
+            for j2, ev in enumerate(faults):
+                if j2 == j:
+                    continue
+                sa = ev.get("same_as")
+                rest.append(dict(ev, same_as=None if sa is None or sa == j else sa - (1 if sa > j else 0)))
+            yield dict(case, faults=rest)
+        for j, ev in enumerate(faults):                         # … a tree of it, a default of one of its components, its oddities
+            if any(e2.get("same_as") == j for e2 in faults) or ev.get("same_as") is not None:
+                continue
+
+            def put(new_forest, j=j, ev=ev):
+                # one node id = one object = one specification: an edited batch that shares objects with another caught
+                # call gets objects of its own
+                elsewhere = {x["id"] for j2, e2 in enumerate(faults) if j2 != j for x in preorder(e2["forest"])}
+                if any(x["id"] in elsewhere for x in preorder(new_forest)):
+                    top = [max([x["id"] for e2 in faults for x in preorder(e2["forest"])] + [999]) + 1]
+
+                    def reid(t):
+                        top[0] += 1
+                        return dict(t, id=top[0] - 1, c=[reid(c) for c in t["c"]])
+                    new_forest = [reid(t) for t in new_forest]
+                return dict(case, faults=faults[:j] + [dict(ev, forest=new_forest)] + faults[j + 1:])
+            for i in range(len(ev["forest"])):
+                if len(ev["forest"]) > 1:
+                    yield put(ev["forest"][:i] + ev["forest"][i + 1:])
+            for i, t in enumerate(ev["forest"]):
+                if t["c"]:
+                    yield put(ev["forest"][:i] + t["c"] + ev["forest"][i + 1:])
+                for q in range(len(t["d"])):
+                    yield put(ev["forest"][:i] + [dict(t, d=t["d"][:q] + t["d"][q + 1:])] + ev["forest"][i + 1:])
+                if t.get("sub", "list") != "list" or t.get("defs", "property") != "property":
+                    yield put(ev["forest"][:i] + [dict(t, sub="list", defs="property")] + ev["forest"][i + 1:])
+            if ev.get("container") == "tuple":
+                yield dict(case, faults=faults[:j] + [dict(ev, container="list")] + faults[j + 1:])
         if case.get("other"):
             yield dict(case, other=None)
         if case.get("reuse"):
@@ -1357,12 +1712,24 @@ class C20(Prop):
             return plan
         plan.append((f"add {_enc_forest(ctor_forest(case))}", "add", stages[0]))
         pos = case["n_spec"] + case["batches"][0]
+        done = {o["k"]: o for o in obs.get("faults") or []}
+
+        def events(at):
+            """the add_components calls whose refusal the caller caught (those that were actually made), each followed by a
+            read of every probed key"""
+            for k, ev in enumerate(case["faults"]):
+                if ev["at"] == at and k in done:
+                    plan.append((f"addk {_fault_token(ev)} {_enc_forest(ev['forest'])}", "addk", done[k]))
+                    for p_, v_ in done[k]["values"]:
+                        plan.append((f"get {p_}", "get", v_))
         for i, (k, st) in enumerate(zip(case["batches"][1:], stages[1:])):
+            events(i + 1)
             if forced[i + 1] is not None:
                 plan.append((None, "forced", [forced[i + 1], st]))
                 return plan
             plan.append((f"add {_enc_forest(case['forest'][pos:pos + k])}", "add", st))
             pos += k
+        events(len(case["batches"]))
         for op, o in zip(case["pre"], obs["pre"]):
             if op[0] == "r":
                 for p, v in o:
@@ -1372,7 +1739,10 @@ class C20(Prop):
                 plan.append((f"set {p} {tok(v)}" if layer is None else f"setl {layer} {p} {tok(v)}", "set", o))
         if obs["setup"] is not None:
             att = ";".join(f"{n}={p}={tok(v)}" for n, p, v, _ in case["attempts"]) or "-"
-            plan.append((f"setup {','.join(case['probes']) or '-'} {att}", "setup", obs["setup"]))
+            if case.get("setup_boom"):
+                plan.append((f"setupk {case['setup_boom']} {','.join(case['probes']) or '-'} {att}", "setup", obs["setup"]))
+            else:
+                plan.append((f"setup {','.join(case['probes']) or '-'} {att}", "setup", obs["setup"]))
             d = obs["setup"].get("deleted")
             if d and d[2] == "ok" and obs["setup"]["outcome"] == "ok":
                 plan.append((f"del {d[1]}", "del", d))
@@ -1431,6 +1801,12 @@ class C20(Prop):
                         dis.append(f"#{k} {pay['op']}: registered impl {pay['registered']}, model {names}")
                 if pay["outcome"] != "ok" or mo != "ok":
                     break
+            elif kind == "addk":                                 # refused or not, the history goes on: what is left behind counts
+                names = [] if len(t) < 2 or t[1] == "-" else t[1].split(",")
+                if coarse(pay["outcome"]) != coarse(mo):
+                    dis.append(f"#{k} add_components (refusal caught) [{line[:70]}]: impl {pay['outcome']}, model {r[:60]}")
+                elif names != pay["registered"]:
+                    dis.append(f"#{k} add_components (refusal caught, {mo}): registered afterwards impl {pay['registered']}, model {names}")
             elif kind == "set":
                 if coarse(pay) != coarse(mo):
                     dis.append(f"#{k} {line}: impl {pay}, model {mo}")
@@ -1438,7 +1814,7 @@ class C20(Prop):
                 if pay["outcome"] != mo:
                     dis.append(f"#{k} setup: impl {pay['outcome']}, model {r[:60]}")
                     break
-                if mo != "ok":
+                if mo != "ok" and not (mo == "usererror" and case.get("setup_boom")):
                     break
                 mlog = [] if t[1] == "-" else t[1].split(",")
                 ilog = [n for _, n in pay["log"]]
@@ -1525,9 +1901,284 @@ class C20(Prop):
                 h.append([k + 1, layer if layer is not None else LAYERS[-1], p, v, f"update before setup at {layer or 'the outermost layer'} {v!r}"])
         return h
 
+    # ---- fault histories (lesson 16): add_components calls that were refused and caught, a setup() that raised
+    @staticmethod
+    def _touch(p, paths):
+        return any(p == q or strict_conflict(p, q) for q in paths)
+
+    def _oracle_faults(self, case, obs):
+        """The property on a history in which the caller catches refusals and carries on with the same context. Clauses, from
+        the property text and nothing else:
+          * a batch whose names / default keys clash with what has been ACCEPTED before it (or with a manager) is refused
+            (judged when setup completes, like everywhere else: a manager's name is only refused by setup); a batch that has
+            nothing to do with anything else in the history is accepted;
+          * every component of an accepted batch is registered and set up exactly once, after the managers and after its
+            parent; a component of a refused batch is set up at most once; nobody else is set up;
+          * a value the user supplied is what the configuration returns at EVERY moment - after every refused call, during
+            setup, afterwards - whatever was refused in between; a key that only accepted components / nobody touched reads
+            as in the history without the refused calls; about a key that only a refused component defaulted the property
+            says nothing (the code as it is leaves such defaults behind);
+          * the configuration cannot be modified once setup has begun.
+        Everything is derived from the case and the OUTCOME CLASS (accepted / refused) of each call."""
+        f = []
+        F = self._facts(case)
+        forest, m = case["forest"], len(case["batches"])
+        mgr_names = F["mgrs"]
+        opt = case["plugins"].get("opt") or {"d": []}
+        mgr_paths = list(MGR_PATHS) + [p for p, _ in opt["d"]] + (["time.start", "time.end"] if case["plugins"]["clock"] == "simple" else [])
+        user_paths = [p for p, _ in case["ms"]] + [p for p, _ in case["ov"]] + [p for p, _ in (case["home"] or [])]
+        sections = ["population", "randomness", "time", "interpolation", "stratification", "input_data"]
+        cuts = [case["n_spec"] + case["batches"][0]] + case["batches"][1:]
+        done = {o["k"]: o for o in obs.get("faults") or []}
+        stages = obs["stages"]
+        main_nodes = preorder(forest)
+        W = {"A": [], "R": [], "Rn": set(), "Rp": set(), "touched": False, "reads": []}
+
+        def event(k, ev):
+            """one add_components call whose refusal the caller would catch; returns False when the outcome class is none the
+            property allows"""
+            nodes = preorder(ev["forest"])
+            names = [t["n"] for t in nodes]
+            paths = [p for t in nodes for p, _ in t["d"]]
+            a_names = [t["n"] for t in W["A"]]
+            a_paths = [p for t in W["A"] for p, _ in t["d"]] + mgr_paths
+            boom = any(t.get("boom") for t in nodes)
+            must = len(set(names)) != len(names) or any(n in a_names for n in names) or len(set(paths)) != len(paths) \
+                or any(self._touch(p, a_paths) for p in paths)
+            conflicts = any(strict_conflict(p, q) for p in paths for q in paths + a_paths + list(W["Rp"]) + user_paths) \
+                or any(p in sections for p in paths)
+            may = boom or any(n in W["Rn"] for n in names) or any(self._touch(p, W["Rp"]) for p in paths) \
+                or any(strict_conflict(p, u) for p in paths for u in user_paths) or any(p in sections for p in paths)
+            out = done[k]["outcome"]
+            allowed = {"ok", "dupname", "dupvalue"} | ({"structure"} if conflicts else set()) | ({"usererror"} if boom else set())
+            if out not in allowed:
+                f.append({"sig": "unexpected-exception", "msg": f"add_components #{k} {names} (refusal caught): {out}"})
+                return False
+            # does the batch have anything to do with the rest of the history (other calls, managers, keys at another depth)?
+            others = main_nodes + [t for k2, e2 in enumerate(case["faults"]) if k2 != k for t in preorder(e2["forest"])]
+            o_names = [t["n"] for t in others] + mgr_names + MGR_NAMES
+            o_paths = [p for t in others for p, _ in t["d"]] + mgr_paths
+            alone = not must and not may and not conflicts and not any(n in o_names for n in names) \
+                and not any(self._touch(p, o_paths) for p in paths)
+            if out != "ok" and alone:
+                f.append({"sig": "valid-program-rejected", "msg": f"add_components #{k} with {names} (unique names, keys nobody else uses), "
+                                                                   f"after caught refusals, was refused: {out}"})
+            if out == "ok":
+                W["A"] = W["A"] + nodes
+                new_n, new_p = set(names), set(paths)
+            else:
+                W["R"] = W["R"] + nodes
+                new_n = {n for n in names if n not in a_names}                       # what a refused call can leave behind:
+                new_p = {p for p in paths if not self._touch(p, a_paths)}            # not the names / keys it was refused for
+                W["Rn"] |= new_n
+                W["Rp"] |= new_p
+            if any(t["n"] in new_n for t in main_nodes) or any(self._touch(q, new_p) for t in main_nodes for q, _ in t["d"]):
+                W["touched"] = True                          # a main batch may legitimately collide with it later on
+            W["reads"].append((f"after add_components #{k} ({out}, caught)", done[k]["values"], list(W["A"]), list(W["R"])))
+            return True
+        pos = 0
+        for i in range(m + 1):                               # events with at == i come before main stage i (0 = constructor)
+            for k, ev in enumerate(case["faults"]):
+                if ev["at"] == i and k in done:
+                    if not event(k, ev):
+                        return f
+            if i < m and i < len(stages) and stages[i]["outcome"] == "ok":
+                W["A"] = W["A"] + preorder(forest[pos:pos + cuts[i]])
+                pos += cuts[i]
+            else:
+                break
+        return self._judge_faults(case, obs, f, F, W, mgr_paths)
+
+    @staticmethod
+    def _expect_faults(case, p, A_t, R_t, n_pre):
+        """(known?, token, layer, who): what key p must read at a moment of a fault history - A_t / R_t = the components of
+        the calls accepted / refused so far, n_pre = number of operations before setup already made. Highest written layer
+        wins, the first write to a layer stays (as in the ordinary oracle); no opinion where only a refused component's
+        leftover default could be visible."""
+        h = []
+        for q, v in case["home"] or []:
+            h.append([0, "user_configs", q, v, f"~/vivarium.yaml {v!r}", "home"])
+        for q, v in case["ms"]:
+            h.append([0, "model_override", q, v, f"model specification {v!r}", "user"])
+        for q, v in case["ov"]:
+            h.append([0, "override", q, v, f"override argument {v!r}", "user"])
+        for q, v in (case["plugins"].get("opt") or {"d": []})["d"]:
+            h.append([0, "component_configs", q, v, f"default of the optional manager {v!r}", "default"])
+        for t in A_t:
+            for q, v in t["d"]:
+                h.append([0, "component_configs", q, v, f"default of the accepted component {t['n']} {v!r}", "default"])
+        for k, op in enumerate(case["pre"]):
+            if op[0] == "w":
+                _, q, v, layer, _src = op
+                h.append([k + 1, layer if layer is not None else LAYERS[-1], q, v, f"update before setup at {layer or 'the outermost layer'} {v!r}", "pre"])
+        best = {}
+        for when, layer, q, v, who, kind in h:
+            if when > n_pre:
+                continue
+            if strict_conflict(p, q):
+                return False, None, None, None
+            if q == p and layer in LAYERS and layer not in best:
+                best[layer] = (v, who, kind)
+        leftover = any(p == q or strict_conflict(p, q) for t in R_t for q, _ in t["d"])
+        builtin = any(under(m_.split(".")[0], p) for m_ in list(MGR_PATHS) + ["input_data", "time"])
+        for layer in reversed(LAYERS):
+            if layer == "component_configs" and builtin and layer not in best:
+                return False, None, None, None
+            if layer in best:
+                v, who, kind = best[layer]
+                if leftover and kind not in ("user", "default"):
+                    return False, None, None, None
+                return True, tok(v), layer, who
+        if leftover:
+            return False, None, None, None
+        return True, None, None, "nobody"
+
+    def _judge_faults(self, case, obs, f, F, W, mgr_paths):
+        A, R = W["A"], W["R"]
+        stages, setup = obs["stages"], obs["setup"]
+        mgr_names = F["mgrs"]
+        outcomes = [s_["outcome"] for s_ in stages] + ([setup["outcome"]] if setup else [])
+        completed = setup is not None and setup["outcome"] == "ok"
+        caught = setup is not None and setup["outcome"] == "usererror" and bool(case.get("setup_boom"))
+        allowed = {"ok", "dupname", "dupvalue"} | ({"structure"} if (F["conflict_default"] or F["conflict_user"] or W["R"] or W["touched"]) else set()) \
+            | ({"cfgerr"} if F["conflict_user"] else set()) | ({"other:TypeError", "other:AttributeError"} if (F["gen"] or F["forced"]) else set()) \
+            | ({"usererror"} if case.get("setup_boom") else set())
+        for o in outcomes:
+            if o not in allowed:
+                f.append({"sig": "unexpected-exception", "msg": f"stage outcomes {outcomes}"})
+                return f
+        SIG = {"override": "user-value-lost", "model_override": "user-value-lost", "component_configs": "default-not-applied",
+               "user_configs": "home-config-value-lost", "base": "base-layer-value-lost", None: "phantom-value"}
+
+        def judge(p, got, A_t, R_t, n_pre, where):
+            known, want, layer, who = self._expect_faults(case, p, A_t, R_t, n_pre)
+            if known and got != want:
+                f.append({"sig": SIG[layer], "msg": f"{p} {where}: supplied by {who}, configuration returns {got} (expected {want}); "
+                                                    f"refused so far: {[(t['n'], t['d']) for t in R_t]}"})
+                return False
+            return True
+        # what every probed key reads after each refused (caught) call
+        bad = False
+        for where, values, A_t, R_t in W["reads"]:
+            for p, got in values:
+                if not judge(p, got, A_t, R_t, 0, where):
+                    bad = True
+                    break
+            if bad:
+                break
+        a_names = [t["n"] for t in A]
+        a_paths = [p for t in A for p, _ in t["d"]]
+        dup_name = len(set(a_names)) != len(a_names)
+        mgr_clash = any(n in mgr_names for n in a_names)
+        dup_default = len(set(a_paths)) != len(a_paths) or any(p in mgr_paths for p in a_paths) or len(set(mgr_paths)) != len(mgr_paths)
+        conflict_default = any(strict_conflict(a, b) for a in a_paths + mgr_paths for b in a_paths)
+        if completed:
+            if dup_name:
+                f.append({"sig": "duplicate-name-accepted", "msg": f"accepted component names {a_names} were all registered and set up"})
+            elif mgr_clash or F["mgr_dup"]:
+                f.append({"sig": "manager-name-accepted", "msg": f"components {[n for n in a_names if n in mgr_names]} / managers {mgr_names[-2:]} share a name"})
+            elif dup_default:
+                f.append({"sig": "duplicate-default-accepted", "msg": f"defaults {[(t['n'], t['d']) for t in A if t['d']]} (+ managers) were all accepted"})
+            elif conflict_default:
+                f.append({"sig": "conflicting-defaults-accepted", "msg": f"the same key is defaulted at two depths: {[(t['n'], t['d']) for t in A if t['d']]}"})
+        if not completed and not caught:
+            explained = F["must_reject"] or F["may_reject"] or W["touched"] or dup_name or mgr_clash or dup_default or conflict_default \
+                or any(t["n"] in mgr_names for t in R)           # a member of a refused batch that stayed registered bears a manager's name
+            if not explained:
+                f.append({"sig": "valid-program-rejected", "msg": f"unique names {a_names}, disjoint defaults, nothing left behind by the refused calls "
+                                                                   f"{[t['n'] for t in R]} touches them; stage outcomes {outcomes}"})
+            return f
+        if bad:
+            return f
+        # registered: every accepted component once; besides them only members of refused batches (what came before the
+        # offending component stays registered), each at most once
+        done = obs.get("faults") or []
+        last_at = [o for o in done if case["faults"][o["k"]]["at"] == len(case["batches"])]
+        reg = (last_at[-1]["registered"] if last_at else stages[-1]["registered"]) or []
+        r_names = [t["n"] for t in R]
+        for n in set(a_names) | set(reg):
+            want_lo = a_names.count(n)
+            want_hi = want_lo if want_lo else (1 if n in r_names else 0)
+            if not (want_lo <= reg.count(n) <= want_hi):
+                f.append({"sig": "component-registration-count", "msg": f"{n}: accepted {want_lo} time(s), in refused batches {r_names.count(n)} time(s), registered {reg.count(n)} time(s): {reg}"})
+                break
+        log = setup["log"]
+        comp_calls = [n for k, n in log if k == "comp"]
+        for n in set(a_names) | set(comp_calls):
+            lo = a_names.count(n) if completed else 0
+            hi = a_names.count(n) if a_names.count(n) else (1 if n in r_names else 0)
+            if not (lo <= comp_calls.count(n) <= hi):
+                f.append({"sig": "component-setup-count", "msg": f"{n}: accepted {a_names.count(n)} time(s), in refused batches {r_names.count(n)} time(s), "
+                                                                 f"set up {comp_calls.count(n)} time(s); setup log {comp_calls}" + ("" if completed else " (setup raised, caught)")})
+                break
+        first_comp = next((i for i, (k, _) in enumerate(log) if k == "comp"), len(log))
+        late_mgrs = [n for i, (k, n) in enumerate(log) if k == "mgr" and i > first_comp]
+        missing = sorted(set(mgr_names) - {n for k, n in log if k == "mgr"})
+        if comp_calls and (late_mgrs or missing):
+            f.append({"sig": "component-before-manager", "msg": f"managers set up after the first component: {late_mgrs}; never set up: {missing}"})
+        every = a_names + r_names
+        if len(set(every)) == len(every):
+            pos = {n: i for i, n in enumerate(comp_calls)}
+            for t in A + R:
+                for c in t["c"]:
+                    if t["n"] in pos and c["n"] in pos and pos[c["n"]] < pos[t["n"]]:
+                        f.append({"sig": "child-before-parent", "msg": f"{c['n']} was set up before its parent {t['n']}: {comp_calls}"})
+                        break
+        # values during setup and afterwards
+        n_pre = len(case["pre"])
+        idx = {p: i for i, p in enumerate(case["probes"])}
+        stop = False
+        for k, (op, o) in enumerate(zip(case["pre"], obs["pre"])):
+            if op[0] == "r" and not stop:
+                for p, got in o:
+                    if not judge(p, got, A, R, k, f"read before setup (after {k} operations)"):
+                        stop = True
+                        break
+        after = dict(map(tuple, obs["values"])) if obs["values"] is not None else {}
+        for p in case["probes"]:
+            if stop or obs["values"] is None:
+                break
+            if not judge(p, after.get(p), A, R, n_pre, "after setup" if completed else "after the setup() that raised"):
+                break
+            known, want, layer, who = self._expect_faults(case, p, A, R, n_pre)
+            wrong = [(n, s_[idx[p]]) for n, s_ in setup["seen"] if s_[idx[p]] != want] if known else []
+            if wrong:
+                f.append({"sig": SIG[layer], "msg": f"{p}: supplied by {who} (expected {want}), seen during setup: {wrong[:3]}"})
+                break
+        # metamorphic: against the history in which the refused calls never happened (same case, new objects) - the accepted
+        # components are set up in the same order, and every key the refused calls could not legitimately have written
+        # (everything except keys only THEY default) reads the same afterwards
+        clean = obs.get("clean")
+        if clean and clean.get("values") is not None and obs["values"] is not None and clean.get("setup") == setup["outcome"]:
+            mine = [n for _, n in log if n in set(clean["log"])]
+            if mine != clean["log"]:
+                f.append({"sig": "refused-call-changed-history", "msg": f"setup order of the accepted objects: {mine}; without the refused calls {[t['n'] for t in R]}: {clean['log']}"})
+            for (p, got), (_, ref) in zip(obs["values"], clean["values"]):
+                if got != ref and not self._touch(p, W["Rp"]):
+                    f.append({"sig": "refused-call-changed-configuration", "msg": f"{p} reads {got} after setup, {ref} in the history without the refused calls "
+                                                                                  f"{[(t['n'], t['d']) for t in R]} (which could not legitimately write it)"})
+                    break
+        acc = [t for t in setup["tried"] if t[2] == "ok"]
+        if acc:
+            f.append({"sig": "config-modified-in-setup", "msg": f"writes accepted from inside setup(): {acc}"})
+        if obs["values"] is not None:
+            views = [s_ for _, s_ in setup["seen"]] + [[v for _, v in obs["values"]]] + [[v for _, v in obs.get("values_end", obs["values"])]]
+            if any(v != views[0] for v in views):
+                f.append({"sig": "config-changed-after-setup-began", "msg": f"probes {case['probes']}: different values were visible at different moments: {[v for v in views if v != views[0]][:2]} vs {views[0]}"})
+        if any(o == "ok" for o in obs["post"]):
+            f.append({"sig": "config-modified-after-setup", "msg": f"writes after setup(): {list(zip(case['post'], obs['post']))}"})
+        la = obs["late_add"]
+        if la and (la["outcome"] == "ok" or la["registered"]) and la["setup_calls"] != 1:
+            f.append({"sig": "late-component-never-set-up", "msg": f"add_components after setup(): {la}"})
+        if obs["setup_twice"] and obs["setup_twice"]["setup_calls"]:
+            f.append({"sig": "component-setup-count", "msg": f"a second setup() ran {obs['setup_twice']['setup_calls']} more setup calls"})
+        return f
+
     def oracle(self, case, obs):
         f = []
         case = fill(case)
+        if case["faults"] or case.get("setup_boom"):
+            return self._oracle_faults(case, obs)
         F = self._facts(case)
         flat, names, mgr_names = F["flat"], F["names"], F["mgrs"]
         outcomes = [s["outcome"] for s in obs["stages"]] + ([obs["setup"]["outcome"]] if obs["setup"] else [])
@@ -1660,6 +2311,9 @@ class C20(Prop):
         completed = obs["setup"] is not None and obs["setup"]["outcome"] == "ok"
         defaulted = {p for t in F["flat"] for p, _ in t["d"]}
         user = {p for p, _ in case["ov"]} | {p for p, _ in case["ms"]}
+        if case["faults"]:                                       # a refusal was caught and the history went on over a user-supplied key
+            refused = [case["faults"][o["k"]] for o in obs.get("faults") or [] if o["outcome"] != "ok"]
+            return any(p in user for ev in refused for x in preorder(ev["forest"]) for p, _ in x["d"]) and obs["setup"] is not None
         if completed:
             return depth(case["forest"]) >= 2 and bool(defaulted & user)
         return depth(case["forest"]) >= 2 and F["must_reject"]
@@ -1746,6 +2400,33 @@ class C20(Prop):
             t.append("second-simulation:set-up-" + ("before" if at[2] <= 2 else "after") + "-the-judged-one")
         if case.get("mode"):
             t += ["mode:" + m for m in case["mode"].split("+")]
+        done = {o["k"]: o for o in obs.get("faults") or []}
+        user_keys = {p for p, _ in case["ov"]} | {p for p, _ in case["ms"]}
+        for k, ev in enumerate(case["faults"]):
+            if k not in done:
+                t.append("fault-call:not-reached")
+                continue
+            out = done[k]["outcome"]
+            nodes = preorder(ev["forest"])
+            t.append(f"fault-call:{ev.get('kind', '?')}:{out}")
+            t.append("caught-refusal:" + out if out != "ok" else "fault-call:accepted")
+            t.append("fault-call-at:" + ("right-after-the-constructor" if ev["at"] == 1 and len(case["batches"]) > 1 else
+                                         "after-the-last-batch" if ev["at"] == len(case["batches"]) else "between-batches"))
+            t.append("fault-call-container:" + ev.get("container", "list"))
+            t.append(f"fault-call-depth:{depth(ev['forest'])}")
+            if ev.get("same_as") is not None:
+                t.append("fault-call:same-sequence-object-again")
+            if out != "ok":
+                wrote = [p for x in nodes for p, _ in x["d"] if p in user_keys]
+                t.append("refused-component-defaults-a-user-key" if wrote else "refused-component-defaults-no-user-key")
+                before = done[k - 1]["registered"] if k - 1 in done and case["faults"][k - 1]["at"] == ev["at"] else None
+                if before is not None and len(done[k]["registered"]) > len(before):
+                    t.append("refused-call:earlier-members-stay-registered")
+        if case.get("setup_boom"):
+            opt = case["plugins"].get("opt")
+            t.append("setup-raises:" + ("optional-manager" if opt and opt["n"] == case["setup_boom"] else "component"))
+            if obs["setup"]:
+                t.append("setup-raises:" + ("caught" if obs["setup"]["outcome"] == "usererror" else "not-reached:" + obs["setup"]["outcome"]))
         for a in case["adds"]:
             if a.get("same_list_as") is not None:
                 t.append("repeat-batch:same-sequence-object")
@@ -1833,6 +2514,9 @@ class C20(Prop):
         return {"forest": [self._show(t) for t in case["forest"]], "routes": [case["n_spec"], case["spec_via"], case["batches"]],
                 "ms": [case["ms_kind"], case["ms"]], "ov": [case["ov_kind"], case["ov"]], "home": case["home"], "plugins": case["plugins"],
                 "earlier_simulations": len(case["before"]),
+                "refusals_caught": [[ev["at"], ev.get("kind"), [self._show(x) for x in ev["forest"]], o["outcome"]]
+                                    for o in obs.get("faults") or [] for ev in [case["faults"][o["k"]]]][:4],
+                "setup_raises": case.get("setup_boom"),
                 "stages": [[s["op"], s["outcome"]] for s in obs["stages"]],
                 "setup": obs["setup"] and {"outcome": obs["setup"]["outcome"], "order": [n for _, n in obs["setup"]["log"]][-8:],
                                            "tried": obs["setup"]["tried"], "deleted": obs["setup"].get("deleted")},
